@@ -23,6 +23,7 @@ func init() {
 		},
 		Run: runC23,
 		Controls: []Control{
+			{Name: "refactor-reject-returns-early-without-connection", Silent: true, File: "protocols/bgp/server/fsm_open_sent.go", Old: "\tif s.fsm.con != nil {\n\t\ts.fsm.sendNotification(packet.OpenMessageError, errorSubCode)\n\t\ts.fsm.con.Close()\n\t}\n", New: "\tif s.fsm.con == nil {\n\t\treturn newIdleState(s.fsm), reason\n\t}\n\ts.fsm.sendNotification(packet.OpenMessageError, errorSubCode)\n\ts.fsm.con.Close()\n"},
 			{Name: "openconfirm-anything-is-a-keepalive", File: "protocols/bgp/server/fsm_open_confirm.go", Old: "\tcase packet.KeepaliveMsg:\n\t\treturn s.keepaliveReceived()\n\tdefault:\n\t\treturn s.unexpectedMessage()\n", New: "\tcase packet.OpenMsg:\n\t\treturn s.unexpectedMessage()\n\tdefault:\n\t\treturn s.keepaliveReceived()\n", Expect: "transition-tied-to-message-type"},
 			{Name: "refactor-dispatch-by-if", Silent: true, File: "protocols/bgp/server/fsm_open_confirm.go", Old: "\tswitch msg.Header.Type {\n\tcase packet.NotificationMsg:\n\t\treturn s.notification(msg)\n\tcase packet.KeepaliveMsg:\n\t\treturn s.keepaliveReceived()\n\tdefault:\n\t\treturn s.unexpectedMessage()\n\t}\n", New: "\tif msg.Header.Type == packet.NotificationMsg {\n\t\treturn s.notification(msg)\n\t}\n\tif msg.Header.Type != packet.KeepaliveMsg {\n\t\treturn s.unexpectedMessage()\n\t}\n\treturn s.keepaliveReceived()\n"},
 			{Name: "openconfirm-skips-to-openSent", File: "protocols/bgp/server/fsm_open_confirm.go", Old: "return newEstablishedState(s.fsm), \"Received KEEPALIVE\"", New: "return newConnectState(s.fsm), \"Received KEEPALIVE\"", Expect: "transition-in-rfc-relation"},
@@ -181,9 +182,12 @@ func runC23(c *core.Ctx) {
 				if ft.Expr != nil && core.FieldOf(m.Pkg, ft.Expr) == isBMP && ft.Truth {
 					exempt = true
 				}
+				if conKnownNil(c, m, ft) {
+					exempt = true
+				}
 			}
 			if exempt {
-				c.Hold("idle-return-closes-connection", construct, r.Ret.Pos(), "exempt: BMP pseudo session has no connection")
+				c.Hold("idle-return-closes-connection", construct, r.Ret.Pos(), "exempt: BMP pseudo session / no connection on this path")
 				continue
 			}
 			c.Fail("idle-return-closes-connection", construct, r.Ret.Pos(), "the session returns to Idle on this path without closing the TCP connection: the peer keeps a half-open session and the message reader goroutine keeps running on it")
